@@ -387,12 +387,17 @@ type outWriter struct {
 func parseOut(p []byte) string {
 	s := string(p)
 	var sb strings.Builder
-	cuu := 0
+	cuu, explicit := 0, false
 	if m := reCUU.FindStringSubmatch(s); m != nil {
 		cuu, _ = strconv.Atoi(m[1])
+		explicit = true
 		s = s[len(m[0]):]
 	}
 	fmt.Fprintf(&sb, "cuu=%d", cuu)
+	if explicit && cuu == 0 {
+		// "cursor up 0" is not "no cursor movement": ECMA-48 terminals execute it as "cursor up 1"
+		sb.WriteString(" ?cuu0")
+	}
 	if strings.Contains(s, "\x1b[") {
 		sb.WriteString(" ?esc")
 	}
